@@ -6,7 +6,9 @@ From Coq Require Import String.
 From AS Require Import Base Effects.
 From AS.Spec Require Import Terminal.
 From AS.Model Require Import Sgr Table Render Scrub.
+From AS.Model Require Import Tokenizer.
 From AS.Proofs Require Import GenConsts GenCodeTable SgrProofs ScrubProofs FlagsProofs GenFns.
+From AS.Proofs Require TableProofs RenderProofs RenderStrip InvariantProofs.
 Local Open Scope list_scope.
 Local Open Scope N_scope.
 
@@ -50,6 +52,44 @@ Print Assumptions C15_members.
 Theorem C15_rgb : forall r g b comp, forallb (fun t => valid t && parsable t) (rgb3 r g b comp) = true.
 Proof. exact rgb3_valid_parsable. Qed.
 Print Assumptions C15_rgb.
+
+(* The rendering clause.  Whenever every setting in use is valid and the base text has no ESC, removing every
+   'ESC [ parameter-bytes m' sequence (the C19 tokenizer restricted to the terminator m, unterminated sequences allowed
+   or not) from ANY rendering - all eight flag sets, optimiser included - leaves exactly the base text ... *)
+Theorem C15_render_strip : forall a o rs re ae,
+  TableProofs.ssorted (tbl a) -> is_valid_tbl (tbl a) = true -> RenderProofs.no_esc (base a) = true ->
+  unformatted (tokenize ae (Some [CH_m]) (to_str a o rs re)) = base a.
+Proof. exact RenderStrip.render_strips_to_base. Qed.
+Print Assumptions C15_render_strip.
+
+(* ... for every value that satisfies the invariant kept by all 29 operations (C09), hence for every reachable value *)
+Theorem C15_render_strip_reachable : forall a o rs re ae,
+  InvariantProofs.WFv a -> is_valid_tbl (tbl a) = true -> RenderProofs.no_esc (base a) = true ->
+  unformatted (tokenize ae (Some [CH_m]) (to_str a o rs re)) = base a.
+Proof. exact RenderStrip.render_strips_to_base_WFv. Qed.
+Print Assumptions C15_render_strip_reachable.
+
+(* ... the removed sequences are exactly the emitted SGR sequences, each ended by m ... *)
+Theorem C15_render_sequences : forall a o rs re ae,
+  is_valid_tbl (tbl a) = true -> RenderProofs.no_esc (base a) = true ->
+  RenderStrip.seqs_of (tokenize ae (Some [CH_m]) (to_str a o rs re))
+  = map RenderStrip.sgr_seq (RenderStrip.codes_of (to_str_toks a o rs re)).
+Proof. exact RenderStrip.render_sequences. Qed.
+Print Assumptions C15_render_sequences.
+
+(* ... and every (non-empty) setting text in use on a character appears intact - as a whole ';'-delimited item - in
+   one of those sequences, in every rendering that does not go through the optimiser (optimize=False, or some setting
+   unparsable, which is the case for every multi-effect verbatim setting).  The optimiser legitimately drops a
+   parsable setting hidden below a later one of the same effect (RenderStrip.optimiser_drops_overridden); an EMPTY
+   setting text cannot be told from the reset at index 0 (RenderStrip.render_intact_counterexample). *)
+Theorem C15_render_intact : forall a o rs re i x,
+  TableProofs.ssorted (tbl a) -> (o = false \/ is_parsable_tbl (tbl a) = false) ->
+  (i < length (base a))%nat -> In x (active_at (tbl a) i) -> stxt x <> [] ->
+  exists codes, In (OSgr codes) (to_str_toks a o rs re) /\ RenderStrip.item_in (stxt x) codes.
+Proof. exact RenderStrip.render_intact_at. Qed.
+Print Assumptions C15_render_intact.
+
+Example C15_render_example := RenderStrip.ex_v_rendered.
 
 (* the final-byte range used by `valid` is the repository's ansi_term_ord_range *)
 Theorem C15_range : forall c, is_final c = ((AS.Gen.Consts.gen_term_lo <=? c) && (c <=? AS.Gen.Consts.gen_term_hi)).
